@@ -43,11 +43,17 @@ def all_descs(ep):
             yield d
 
 
-def realise(d, rng):
-    """random otherwise-valid data for a descriptor"""
-    n = rng.randint(4, 9)
+def realise(d, rng, kind=None):
+    """random otherwise-valid data for a descriptor; kind selects the wrong length (0: one short, 1: one long, 2: a single element,
+    3: twice as many)"""
+    n = rng.randint(4, 9) if rng.random() < 0.85 else rng.choice([1, 2])  # also one or two observations
+    if kind is not None and n < 3 and kind in (0, 2):
+        n = 3
     y = [rng.randint(0, 12) / 4 for _ in range(n)]
-    pred = [rng.randint(1, 12) / 4 for _ in range(n - 1 if d["lenMismatch"] else n)]
+    # a wrong length is not only n - 1: a single prediction (numpy would broadcast it), too many, twice as many
+    wrong = [m for m in (n - 1, n - 1, n + 1, 1, 2 * n) if m >= 1 and m != n] if kind is None else [[n - 1, n + 1, 1, 2 * n][kind]]
+    npred_ = n if not d["lenMismatch"] else rng.choice(wrong)
+    pred = [rng.randint(1, 12) / 4 for _ in range(npred_)]
     npred = len(pred)
     out = {"y": y, "pred": pred}
     if d["hasFeature"]:
@@ -59,6 +65,12 @@ def realise(d, rng):
             out["feature"][rng.randrange(len(out["feature"]))] = float("nan")
     if d["hasWeights"]:
         m = n + (rng.choice([1, -1]) if d["wLenMismatch"] else 0)
+        if m == 0:
+            m = 2
+        if d["wLenMismatch"] and n > 2 and rng.random() < 0.25:
+            m = 1  # a single weight (numpy would broadcast it)
+        if d["wLenMismatch"] and kind is not None:
+            m = [n - 1, n + 1, 1, 2 * n][kind]
         w = [float(rng.randint(1, 3)) for _ in range(m)]
         if d["wNonPositive"]:
             if rng.random() < 0.35:
@@ -181,6 +193,18 @@ class C20(Prop):
                     dd = dict(d)
                     dd["ctor"] = rng.randint(0, 9)
                     yield {"stream": ep, "desc": dd, "data": realise(dd, rng)}
+        # the single-violation "wrong length" descriptors once more, with every kind of wrong length (one short, one long, a
+        # single element that numpy would broadcast, twice as many) and every score class / one or two observations
+        for ep in RELEVANT:
+            for d in all_descs(ep):
+                v = self.violated(d)
+                if len(v) != 1 or not (d["lenMismatch"] or d.get("wLenMismatch")):
+                    continue
+                for kind in range(4):
+                    for ctor in (range(5) if ep == "scoreCall" else [rng.randint(0, 9)]):
+                        dd = dict(d)
+                        dd["ctor"] = ctor
+                        yield {"stream": ep, "desc": dd, "data": realise(dd, rng, kind)}
 
     def impl(self, case):
         try:
